@@ -118,11 +118,13 @@ func writerSpace(r *chk.Run, so spaceOpts, oracle writerOracle) {
 			chunked bool
 			size    int64
 			comp    string
+			level   int
 		}
-		modes := []m{{false, 0, ""}, {true, 1, ""}, {true, 64, ""}, {true, 700, ""}, {true, 0, ""}, {true, 1 << 40, ""}, {true, 64, "zstd"}, {true, 0, "lz4"}}
+		// the last two: zstd at the levels with 16 and 32 MiB windows over chunks of more than one 128 KiB block
+		modes := []m{{false, 0, "", 0}, {true, 1, "", 0}, {true, 64, "", 0}, {true, 700, "", 0}, {true, 0, "", 0}, {true, 1 << 40, "", 0}, {true, 64, "zstd", 0}, {true, 0, "lz4", 0}, {true, 0, "zstd", 2}, {true, 1 << 21, "zstd", 3}}
 		md := modes[x.Choose("cfg", len(modes))]
 		fl := []int{0, gow.FSkipMessageIndexing | gow.FSkipChunkIndex, 1<<gow.NFlags - 1 - gow.FSkipMagic}[x.Choose("cfg", 3)]
-		cfg := gow.Config{Flags: fl, CRC: x.Bool("cfg"), Chunked: md.chunked, ChunkSize: md.size, Compression: md.comp}
+		cfg := gow.Config{Flags: fl, CRC: x.Bool("cfg"), Chunked: md.chunked, ChunkSize: md.size, Compression: md.comp, Level: md.level}
 		x.Ops += len(c.Ops)
 		return run(c, cfg, x)
 	}, chk.PhaseOpts{Share: 0.5})
